@@ -302,3 +302,66 @@ def rule_clause_exits(ctx):
                             (key.split(" as ")[0].lstrip("<"), w), fn.file, fn.line)
     res.require_floor(8)
     return res
+
+
+def rule_lookup(ctx):
+    """R-LOOKUP: shadowing table of the context lookups, by abstract interpretation of their MIR"""
+    import itertools
+    from .. import backend
+    from ..interp import Adt, Vec, Sym
+    fx = ctx.fx
+    res = RuleResult("R-LOOKUP", "variable and covariable lookup of the Fun type checker folded (abstract interpretation of the MIR) on every "
+                     "typing context of up to 3 bindings over two names and both chiralities: the innermost binding of the searched name "
+                     "alone decides - its type is returned when its chirality is the requested one, an error otherwise (a producer used "
+                     "as a consumer or vice versa is rejected even if an outer binding of the same name has the other chirality), and an "
+                     "unbound name is an error")
+    F = "fun::syntax::"
+
+    def ty(i):
+        return Adt(F + "types::Ty", "Decl", {"span": Adt("core::option::Option", "None", {}), "name": "T%d" % i,
+                                             "type_args": Adt(F + "types::TypeArgs", "TypeArgs", {"span": Adt("core::option::Option", "None", {}), "args": Vec([])})})
+
+    def binding(i, name, chi):
+        return Adt(F + "context::ContextBinding", "ContextBinding", {"var": name, "chi": Adt(F + "context::Chirality", chi, {}), "ty": ty(i)})
+
+    for fname, want in (("lookup_var", "Prd"), ("lookup_covar", "Cns")):
+        key = F + "context::TypingContext::" + fname
+        f = fx.fn(key)
+        bad = []
+        n = 0
+        for ln in range(0, 4):
+            for combo in itertools.product(itertools.product(("k", "j"), ("Prd", "Cns")), repeat=ln):
+                n += 1
+                bs = [binding(i, nm, chi) for i, (nm, chi) in enumerate(combo)]
+                tc = Adt(F + "context::TypingContext", "TypingContext", {"span": Sym("ctxspan"), "bindings": Vec(bs)})
+                _, outs = backend.fold(ctx, key, [tc, "k", Sym("span")])
+                outs = [o for o in outs if not getattr(o, "diverged", None)]
+                if len(outs) != 1 or not isinstance(outs[0].result, Adt):
+                    raise AnalysisError("R-LOOKUP: %s could not be folded on %r" % (fname, combo))
+                r = outs[0].result
+                inner = [i for i, (nm, _) in enumerate(combo) if nm == "k"]
+                desc = "[%s]" % ", ".join("%s:%s" % (nm, chi.lower()) for nm, chi in combo)
+                if not inner:
+                    if r.variant != "Err":
+                        bad.append((desc, "the name is unbound but the lookup returns %r" % (r,)))
+                    continue
+                i = inner[-1]
+                if combo[i][1] == want:
+                    got = r.fields.get("0") if r.variant == "Ok" else None
+                    if r.variant != "Ok" or not isinstance(got, Adt) or got.fields.get("name") != "T%d" % i:
+                        bad.append((desc, "the innermost binding of k is binding %d with the requested chirality, but the lookup returns %s" % (i, _short(r))))
+                elif r.variant != "Err":
+                    bad.append((desc, "the innermost binding of k is a %s, but the lookup accepts it as a %s (returns %s)"
+                                % ("covariable" if want == "Prd" else "variable", "variable" if want == "Prd" else "covariable", _short(r))))
+        if bad:
+            res.inst(key, f["sp"]["file"], f["sp"]["line"], "violation", "%d of %d contexts wrong" % (len(bad), n))
+            res.violate(key, "%s in context %s (innermost last): %s  [%d of %d contexts wrong]" % (fname, bad[0][0], bad[0][1], len(bad), n), f["sp"]["file"], f["sp"]["line"])
+        else:
+            res.inst(key, f["sp"]["file"], f["sp"]["line"], "ok", "%d contexts" % n)
+    res.require_floor(2)
+    return res
+
+
+def _short(r):
+    s = repr(r)
+    return s if len(s) < 90 else s[:87] + "..."
